@@ -10,9 +10,13 @@ mod text;
 mod netprops;
 mod c13;
 mod c14;
+mod c17;
 mod c18;
 
 use common::Args;
+
+#[global_allocator]
+static ALLOC: c17::Counting = c17::Counting;
 
 fn main() {
     std::panic::set_hook(Box::new(|_| {}));
@@ -33,6 +37,7 @@ fn main() {
         "c13" => c13::run(&a),
         "c14" => c14::run_c14(&a),
         "c15" => c14::run_c15(&a),
+        "c17" => c17::run(&a),
         "c18" => c18::run(&a),
         "c01" => wire::run_c01(&a),
         "c03" => wire::run_c03(&a),
